@@ -31,6 +31,8 @@ func VerifAssemble(ctx context.Context, kubeClient *klient.Client, hooksDir, tem
 	registerTaskQueueMetrics(op.MetricStorage)
 	registerKubeEventsManagerMetrics(op.MetricStorage, map[string]string{"hook": "", "binding": "", "queue": ""})
 	registerHookMetrics(op.MetricStorage)
+	// a listener on a free local port, so that the real Start() can be used
+	op.APIServer = newBaseHTTPServer("127.0.0.1", "0")
 	op.KubeClient = kubeClient
 	op.ObjectPatcher = objectpatch.NewObjectPatcher(kubeClient, logger)
 	op.SetupEventManagers()
@@ -49,6 +51,11 @@ func (op *ShellOperator) VerifStart() {
 	op.initAndStartHookQueues()
 	op.ManagerEventsHandler.Start()
 }
+
+// VerifStartReal is Start() itself: HTTP listener on a free local port, live metrics and
+// the cron scheduler included (the harness uses crontabs that never fire and injects
+// ticks through ScheduleManager.Ch()).
+func (op *ShellOperator) VerifStartReal() { op.Start() }
 
 // VerifBootstrapMainQueue only fills the main queue.
 func (op *ShellOperator) VerifBootstrapMainQueue() { op.bootstrapMainQueue(op.TaskQueues) }
